@@ -42,7 +42,9 @@ ALG_KINDS = {'Range': 'range', 'LT': 'lt', 'LE': 'le', 'EQ': 'eq', 'GE': 'ge', '
 
 def build_solver(ck, flags=('-O1', '-g')):
     srcs = [os.path.join(RD, f) for f in ['recmain.cc', 'recmodelapi.cc', 'recbackend.cc']] + [os.path.join(CD, 'c07modelmgr.cc')]
-    objs = ck.objects(srcs, flags=flags, extra_inc=[RD], tag='c07')
+    # the harness TUs without debug information (c07modelmgr.cc instantiates the whole converter: -g made a 155 MB object and
+    # a 2 min compile); the library objects keep the flags they share with the other checks' caches
+    objs = ck.objects(srcs, flags=tuple(f for f in flags if f != '-g'), extra_inc=[RD], tag='c07')
     return ck.link('c07solver', objs + ck.libmp_objects(flags=flags))
 
 
@@ -544,8 +546,8 @@ def text_matches(obs_text, ideal, real, name_ties=False):
                     row = '*' + row[1:]
                 if row.rstrip() == o:
                     ok = True
-                elif name_ties and re.sub(r'\[[^\]]*\]', '[]', row.rstrip()) == re.sub(r'\[[^\]]*\]', '[]', o):
-                    ok = True                 # same numbers, another item named: a near-tie between inexact doubles
+                elif name_ties and re.sub(r' +', ' ', re.sub(r'\[[^\]]*\]', '[]', row.rstrip())) == re.sub(r' +', ' ', re.sub(r'\[[^\]]*\]', '[]', o)):
+                    ok = True                 # same numbers, another item named: a near-tie between inexact doubles (column padding depends on the name length)
         if not ok:
             return False
     return True
@@ -1487,6 +1489,18 @@ def oracle(c):
             return {'expect': True, 'kind': 'violated', 'detail': (badv if vsel else []) + (badc if csel else [])}
         if vsel and badi:
             return {'expect': True, 'kind': 'int-violated', 'detail': badi}
+        if vsel and (real & 1):
+            # "flattening is the identity" fails when the conversion added auxiliary variables (complementarity reformulated
+            # for an acceptance set without it): the realistic pass legitimately tests their bounds / integrality too, and the
+            # NL model says nothing about them -> no 'feasible' verdict when one of them is off (thorough seed 1, round 7)
+            for j, v in enumerate(f.vars):
+                if v['orig'] or j >= len(xseen):
+                    continue
+                xv = xseen[j]
+                if (v['lb'] not in (None, -INF) and not isinstance(v['lb'], float) and v['lb'] - xv > 0) or \
+                   (v['ub'] not in (None, INF) and not isinstance(v['ub'], float) and xv - v['ub'] > 0) or \
+                   (v['int'] and xv != cround(float(xv)) and abs(xv - F(cround(float(xv)))) > 0):
+                    return None
         return {'expect': False, 'kind': 'feasible', 'detail': None}
     # general models: relative tolerance 0, no intermediate/solver-side classes, variables and original constraints both selected
     if feastolrel != 0:
@@ -1697,7 +1711,7 @@ def proof_stage(ck):
     return ok, failing
 
 
-EXPECT_THEOREMS = 59
+EXPECT_THEOREMS = 63
 
 
 def run(ck):
